@@ -1,5 +1,6 @@
 import Clover.Props.C02
 import Clover.Spec.Spec
+import Clover.Proofs.RefineFindAll
 /-! # C01 — queries return exactly the documents that satisfy their criteria -/
 namespace CV.Props.C01
 open CV
@@ -35,5 +36,27 @@ theorem planner_never_drops (d : Doc) (hd : AllNumKV numOK d) (c : Crit) (hc : C
     (h : sat likeFn fnFam d c = true) :
     ∀ r, fieldRange f (flatten c) = some r → Pl.inScan vord r.abs (d.get f) = true :=
   C02.planner_sound likeFn fnFam d hd c hc f h
+
+/-- **Refinement of FindAll (collections without indexes).**  In every store that represents a
+    well-formed abstract state — i.e. after any history of operations that preserve the invariant —
+    a fault-free `FindAll(q)` of the model returns exactly the specification's answer: the live
+    documents of the collection that satisfy the criteria (any tree, any operand kind), each once,
+    with the fields last written, ordered by the sort options and cut to the skip/limit window.
+    (With indexes the same holds for the candidates — `C02.index_candidates_complete` — and is
+    checked end to end at run time; `_partial` because the index-plan glue is not yet a theorem.) -/
+theorem findAll_refines_spec_partial (s : Spec.State) (σ : KVS) (hw : WF s) (hr : Rep s σ) (q : Query)
+    (coll : Spec.Coll) (hc : Keys.Clean q.coll) (hl : Spec.lookup q.coll s = some coll) (hni : coll.indexes = []) :
+    (withTx false (Op.body likeFn fnFam (.findAll q)) noFault σ).1 =
+      .ok (.docs (Spec.findAll likeFn fnFam q coll)) :=
+  findAll_refines_noindex likeFn fnFam s σ hw hr q coll hc hl hni
+
+/-- a query on a missing collection reports it -/
+theorem findAll_missing_collection (s : Spec.State) (σ : KVS) (hr : Rep s σ) (q : Query)
+    (hl : Spec.lookup q.coll s = none) :
+    (withTx false (Op.body likeFn fnFam (.findAll q)) noFault σ).1 = .err .collNotExist :=
+  findAll_missing likeFn fnFam s σ hr q hl
+
+/-- non-vacuity: the empty store represents the empty (well-formed) state -/
+example : WF [] ∧ Rep [] [] := ⟨wf_empty, rep_empty⟩
 
 end CV.Props.C01
